@@ -397,16 +397,30 @@ SEM_DECLS = [
     "chan priority nosuch55 < default;", "chan priority 1 < default;", "progress { nosuch56; }", "gantt { G57 : nosuch57 -> 1; }",
     "typedef struct { int f; } rec58; rec58 r58; int v58 = r58;", "int a59[2]; int v59 = a59;", "int a60[2]; int b60[3] = a60;",
     "double d61 = \"str\";", "string s62 = 1;", "bool b63 = 1.5;", "int i64 = 1.5 + true;",
+    # type prefixes on the wrong base type, references and ranges over the wrong types, array sizes of the wrong type
+    "hybrid int hi65;", "const clock cc66;", "meta chan mc67;", "void f68(void &v) { }", "urgent clock uc69;", "broadcast clock bc70;",
+    "int a71[1.5];", "int a72[true];", "int a73[c];", "typedef struct { clock cf; } sc74; sc74 v74;", "typedef struct { chan hf; } sc75; const sc75 v75;",
+    "hybrid clock hc76; int i76 = hc76;", "const int c77 = 1; int[c77, 0] r77;", "int[0.5, 1.5] r78;", "double[0,1] d79;", "scalar[2] s80; int i80 = s80 + 1;",
+    "typedef scalar[2] ss81; ss81 a81; ss81 b81 = a81;", "meta int mi82; clock ck82; void f82() { ck82 = mi82; }", "int f83(int a[2]) { return a; }",
+    "struct { int a; } f84() { }", "clock f85() { return x; }", "chan f86() { return c; }", "int f87(chan ch) { return 1; }", "void f88(clock &k) { k = 1.5; }",
+    "const int c89[2] = { 1, 2 }; int[0, c89[5]] r89;", "int q90 = spawn D90();", "dynamic D91(); int q91 = numOf(D91);",
+    # priorities, progress measures, gantt charts and before/after update with operands of the wrong kind
+    "chan priority i < default;", "chan priority c, c;", "chan priority default, default;", "chan priority arr[0] < c;", "chan priority c[1];",
+    "before_update { x }", "after_update { c }", "before_update { i = }", "after_update { nosuch() }",
 ]
 SEM_LABELS = {
     "select": ["s : chan", "s : struct { int a; }", "s : int", "s : nosuch", "s : int[0,1], s : int[0,1]", "i : int[0,1]", "s : scalar[2]", "s : int[1,0]", "s : void"],
     "guard": ["c", "arr", "fn", "s", "i = 1", "nosuch", "x", "x < y < 1", "fn(1, 2)", "arr[1][2]", "s.nosuch", "i.f", "c!", "1 ? x : c", "forall (q : chan) true"],
     "synchronisation": ["i!", "x?", "arr[0]!", "fn(1)!", "c[0]!", "nosuch!", "c", "s.f?", "(c)!", "c!!"],
     "assignment": ["1 = 2", "c = c", "fn = 1", "k = 1", "x = c", "arr = 1", "s = 1", "i = arr", "i++ ++", "nosuch = 1", "fn(c)", "i = s", "s.f = s", "x' = 1"],
-    "invariant": ["c", "i = 1", "x < 1 || y < 1", "x' == c", "arr", "nosuch", "x' == 1 && x' == 2", "s", "fn"],
+    "invariant": ["x' == 2 && y' == 3 && i' == 1 && j' == 2", "i' == 1 && j' == 1", "x <= 5 && forall (q : int[0,1]) x' == q", "x' == c", "x' == x", "arr' == 1",
+                  "c", "i = 1", "x < 1 || y < 1", "x' == c", "arr", "nosuch", "x' == 1 && x' == 2", "s", "fn"],
     "probability": ["c", "x", "s", "arr", "-1", "nosuch", "1.5 + c", "i = 1"],
     "parameter": ["chan c, chan c", "int p, int p", "void v", "int &p[nosuch]", "struct { chan c; } p", "nosuch p", "const clock &x", "int p = 1", "urgent chan &u, broadcast chan &b, int[0,1] k, scalar[2] sq"],
-    "system": ["system nosuch;", "P = T(); P = T(); system P;", "P = T(1); system P;", "P = nosuch(); system P;", "P = T2(); system P, P;", "system T < T;", "P(int p, int p) = T(); system P;",
+    "system": ["system T; progress { c; }", "system T; progress { c : 1; }", "system T; progress { x : i; }", "system T; progress { i++; }",
+               "system T; gantt { G : c -> 1; }", "system T; gantt { G(k : chan) : true -> k; }", "system T; gantt { G(k : int[0,1]) : arr[k] -> x; }",
+               "system T; gantt { G : true -> i++; }", "system T; gantt { G : for (k : int[0,1]) nosuch -> k; }", "system T; gantt { G(k : int[0,1], k : int[0,1]) : true -> k; }",
+               "system nosuch;", "P = T(); P = T(); system P;", "P = T(1); system P;", "P = nosuch(); system P;", "P = T2(); system P, P;", "system T < T;", "P(int p, int p) = T(); system P;",
                "P(chan c) = T(); system P;", "system T, T2; progress { nosuch; }", "P = T(); system P; gantt { G : P.nosuch -> 1; }", "system i;", "P = i(); system P;", "P = T(); Q = P(); R = Q(); system R;"],
 }
 
@@ -526,11 +540,97 @@ def initialiser_docs(t):
     return docs
 
 
+# (6) ill-typed queries: every query form with one slot filled by an operand of the wrong kind (the error branches of the
+# property type checker), sanitized build
+ILL_OPERANDS = ["ch", "x", "arr", "rcd", "a ++", "a = 1", "1.5", "\"str\"", "fq", "nosuch", "P", "P.L1", "- 1", "fq ( a ++ )", "x - y",
+                "x <= 5", "x' == 1", "deadlock", "P.nosuch", "arr [ 9 ]", "forall ( i : int[0,1] ) x < i", "A[] p", "0", "2147483647 + 1"]
+ILL_BOUNDS = ["<=a", "<=-1", "x<=a", "ch<=10", "#<=a", "#<=1.5", "<=fq(1)", "arr<=10", "<=10; 0", "<=10; -5", "<=10; a", "x<=10; 1.5", "<=x", "nosuch<=10",
+              "P.lx<=10", "#<=2147483648"]
+
+
+def ill_queries():
+    sys.path.insert(0, os.path.dirname(os.path.abspath(__file__)))
+    import c03
+    ctx = c03.qmodel().replace(X.esc(c03.QMODEL_DECL), X.esc(c03.QMODEL_DECL + " struct { int f; } rcd; int fq(int q) { return q; }"), 1)
+    items = []
+    for fid, tpl in c03.query_forms():
+        slots = [sl for sl in ("p", "q", "n", "m") if "{%s}" % sl in tpl]
+        good = {"p": "p", "q": "q", "n": "a", "m": "b"}
+        for sl in slots:
+            for bad in ILL_OPERANDS:
+                f = dict(good)
+                f[sl] = bad
+                items.append(("ill-query:%s:%s" % (fid, sl), tpl.format(**f)))
+        for b in ILL_BOUNDS:
+            if "[<=10]" in tpl:
+                items.append(("ill-query:%s:bound" % fid, tpl.replace("[<=10]", "[%s]" % b).format(**good)))
+            elif "[<=10; " in tpl:
+                items.append(("ill-query:%s:bound" % fid, re.sub(r"\[<=10; \d+\]", "[%s]" % b, tpl).format(**good)))
+    return ctx, items
+
+
+def ill_query_shard(arg):
+    i, n = arg
+    part = engine.Part()
+    w = engine.worker("san")
+    ctx, items = ill_queries()
+    mine = [it for k, it in enumerate(items) if k % n == i]
+    c = {"kind": "xml", "text": ctx}
+    for k in range(0, len(mine), 100):
+        chunk = mine[k:k + 100]
+        req = {"op": "queries", "ctx": c, "items": [t for _, t in chunk], "print": True}
+        r = w.call_safe(req, timeout=120)
+        results = r.get("results") if not r.get("died") else None
+        if results is None:
+            results = []
+            for _, t in chunk:
+                r1 = w.call_safe({"op": "queries", "ctx": c, "items": [t], "print": True}, timeout=30)
+                results.append(r1 if r1.get("died") else r1["results"][0])
+        elif r["ctx"]["errors"] or r["ctx"]["exc"]:
+            raise RuntimeError("C01 generator bug: query context rejected: %s" % str(r["ctx"])[:300])
+        for (lab_, text), x in zip(chunk, results):
+            part.count()
+            part.nontrivial_case(lab_ + ":" + text)
+            rp = {"op": "queries", "ctx": c, "items": [text], "print": True}
+            if x.get("died"):
+                sig = engine.crash_signature(x)
+                part.outcome("crash")
+                part.violation("crash:%s:%s" % (sig, lab_), "%s `%s`: %s: %s" % (lab_, text, sig, (x.get("stderr") or "")[-300:].replace("\n", " | ")), rp)
+            elif engine.sanitizer_hit(x):
+                part.outcome("sanitizer-report")
+                part.violation("san:%s:%s" % (engine.crash_signature(x), lab_), "%s `%s`: %s" % (lab_, text, (x.get("stderr") or "")[:300].replace("\n", " | ")), rp)
+            elif x.get("exc") is not None and x.get("std") is False:
+                part.violation("nonstd-exception:%s:%s" % (x["exc"], lab_), "%s `%s` ends in %s" % (lab_, text, x["exc"]), rp)
+            else:
+                part.outcome("ill-query:" + ("std-exception" if x.get("exc") else ("diagnostics" if x.get("err") else "accepted")))
+    return part.result()
+
+
+def edge_combination_docs(t):
+    """synchronisation kind x guard kind x controllability x target location kind: the type checker's per-edge warnings and
+    errors (clock guards on urgent edges, strict bounds, broadcast receivers, CSP-style synchronisation, refinement)"""
+    docs = []
+    g = X.esc("int i; int j; clock x; clock y; chan c; broadcast chan bc; urgent chan uc; urgent broadcast chan ubc; chan ca[2];")
+    for sync in ("uc!", "uc?", "ubc!", "ubc?", "bc?", "bc!", "c", "ca[i]!", "ca[i]", "c!", None):
+        for guard in ("x < 5", "x <= 5", "i == 0", "x - y < 3", "x < 5 && i == 0", None):
+            for ctrl in ("", ' controllable="false"'):
+                for tinv in (None, "x <= 7", "x < 7"):
+                    lab = (PS.lab("guard", X.esc(guard)) if guard else "") + (PS.lab("synchronisation", X.esc(sync)) if sync else "")
+                    t1 = ('<template><name>T</name><declaration>clock lx;</declaration><location id="id0"><name>A</name></location>'
+                          '<location id="id1"><name>B</name>%s</location><init ref="id0"/><transition%s><source ref="id0"/><target ref="id1"/>%s</transition>'
+                          '<transition><source ref="id1"/><target ref="id0"/><label kind="synchronisation">%s</label></transition></template>'
+                          % (PS.lab("invariant", X.esc(tinv)) if tinv else "", ctrl, lab,
+                             X.esc(sync.replace("!", "?") if sync and sync.endswith("!") else (sync or "c?").replace("?", "!"))))
+                    docs.append(("sem:edge:%s:%s:%s:%s" % (sync, guard, "u" if ctrl else "c", tinv),
+                                 X.HEADER + "<nta><declaration>%s</declaration>%s<system>system T;</system></nta>\n" % (g, t1), "xml"))
+    return docs
+
+
 def semantic_shard(arg):
     t, i, n = arg
     part = engine.Part()
     w = engine.worker("san")
-    docs = [d for k, d in enumerate(semantic_docs(t) + dynamic_docs(t) + initialiser_docs(t)) if k % n == i]
+    docs = [d for k, d in enumerate(semantic_docs(t) + dynamic_docs(t) + initialiser_docs(t) + edge_combination_docs(t)) if k % n == i]
     for kind in ("xml", "xmlq", "xta", "xta-old"):
         sel = [d for d in docs if d[2] == kind]
         res = X.run_docs(w, [d[1] for d in sel], want=["queries"] if kind == "xmlq" else [], batch=25, kind="xml" if kind.startswith("xml") else "xta",
@@ -676,6 +776,8 @@ def main():
         rep.merge(res)
     for res in engine.pmap(semantic_shard, [(t, i, 4 * n) for i in range(4 * n)]):
         rep.merge(res)
+    for res in engine.pmap(ill_query_shard, [(i, 2 * n) for i in range(2 * n)]):
+        rep.merge(res)
     sizes = [10, 100, 1000, 5000, 10000] if t == "quick" else [10, 100, 1000, 10000, 30000, 100000]
     for res in engine.pmap(growth_shard, [(name, sizes) for name in growth_families()]):
         rep.merge(res)
@@ -697,8 +799,10 @@ def main():
                 "construct (4 quantifiers over instances x 7 kinds of template operand x 28 body shapes; spawn/exit/numOf x 21 operand "
                 "shapes) in guards, invariants, updates, probabilities, function bodies and SMC / symbolic queries, and every initialiser "
                 "list of up to 3 (thorough: 4) elements (positional, named known / repeated / unknown field, nested, wrong type) for records "
-                "of 1-3 fields and for arrays, sanitized build."
-                % (len(cfgs), len(growth_families()), sizes, len(length_docs(t)), len(semantic_docs(t)) + len(dynamic_docs(t)) + len(initialiser_docs(t))))
+                "of 1-3 fields and for arrays, and 396 combinations of synchronisation kind x guard kind x controllability x target invariant, sanitized build. (6) %d ill-typed queries: every query form with one operand slot or the bound "
+                "filled by an operand of the wrong kind (channel, clock, array, record, side effect, string, function, process, unknown, "
+                "formula, ...), through parseProperty with the TIGA builder and the property type checker, sanitized build."
+                % (len(cfgs), len(growth_families()), sizes, len(length_docs(t)), len(semantic_docs(t)) + len(dynamic_docs(t)) + len(initialiser_docs(t)) + len(edge_combination_docs(t)), len(ill_queries()[1])))
     rep.nontrivial_count = states + len(xml_docs(t))
     rep.assumptions = ["digest pruning is sound if the digest covers everything later callbacks read (argued in DESIGN.md §3/C01); the "
                        "'shape' digest runs are heuristic and are not counted as exhaustive",
